@@ -1,10 +1,135 @@
 import BFL.Driver.Proto
-/- Driver entries of this group (stub: no operation handled yet). -/
+import BFL.Model.Resample
+import BFL.Model.SIS
+/-
+Driver entries of the particle-filter group (C07 resampling, C06 SIS recursion).
+
+  rs  N u1 e_0 … e_{N-1}            -> "ok" parents         selection over `Rat` on the exact `exp(wᵢ)` values
+  rsf N u1 e_0 … e_{N-1}            -> "ok" parents         the same definitions over `Float`
+  rsw N w_0 … w_{N-1}               -> "ok" neff(hex) -logN(hex)      `neffLog`, output weight, over `Float`
+  rwp N lin circ quat ratio u1 w_0 … -> "ok" k n lin circ quat |parts| |logw| ids… parents… weights(hex)…
+                                       `resampleWithPrior` over `Float`; particle `i` carries id `i+1`,
+                                       the initialiser writes ids `-(j+1)`, untouched storage is id `0`
+  sis …                             -> see `sis` below (C06)
+-/
 namespace BFL.DriverPF
-open BFL BFL.Proto
+open BFL BFL.Proto BFL.PF
+
+instance : NatCast Float := ⟨Float.ofNat⟩
+instance : Zero Float := ⟨0.0⟩
+instance : One Float := ⟨1.0⟩
+
+def natsStr (l : List Nat) : List String := l.map toString
+def intsStr (l : List Int) : List String := l.map toString
+
+def rs : R String := do
+  let n ← nat
+  let u1 ← rat
+  let ws ← listOf n rat
+  done
+  pure (join ("ok" :: natsStr (resampleIdx ws u1)))
+
+def rsf : R String := do
+  let n ← nat
+  let u1 ← flt
+  let ws ← listOf n flt
+  done
+  pure (join ("ok" :: natsStr (resampleIdx ws u1)))
+
+def rsw : R String := do
+  let n ← nat
+  let ws ← listOf n flt
+  done
+  pure (join ["ok", floatStr (neffLog ws), floatStr (-(Transc.log ((n : Nat) : Float)))])
+
+def floorNat (x : Float) : Nat := (Float.floor x).toUInt64.toNat
+
+/-- one admissible `sort_indices`: stable merge sort by ascending value -/
+def sortIdxFloat (v : List Float) : List Nat :=
+  let arr := v.toArray
+  (List.range v.length).mergeSort (fun a b => !(arr.getD b 0.0 < arr.getD a 0.0))
+
+def rwp : R String := do
+  let n ← nat; let lin ← nat; let circ ← nat; let quat ← bool
+  let ratio ← flt
+  let u1 ← flt
+  let ws ← listOf n flt
+  done
+  let cor : PSet Int Float :=
+    { n := n, lin := lin, circ := circ, quat := quat, parts := (List.range n).map (fun i => (Int.ofNat i) + 1), logw := ws }
+  let init : PSet Int Float → PSet Int Float := fun s =>
+    { s with parts := (List.range s.parts.length).map (fun j => -((Int.ofNat j) + 1)) }
+  let k := numPrior floorNat ratio cor
+  let (out, par) := resampleWithPrior floorNat sortIdxFloat init ratio cor u1
+  pure (join (["ok", toString k, toString out.n, toString out.lin, toString out.circ,
+               (if out.quat then "1" else "0"), toString out.parts.length, toString out.logw.length]
+              ++ intsStr out.parts ++ intsStr par ++ out.logw.map floatStr))
+
+/-! ### C06 -/
+
+def cmdOf : Nat → List SkipCmd
+  | 1 => [.predOn] | 2 => [.predOff] | 3 => [.corOn] | 4 => [.corOff] | 5 => [.allOn] | 6 => [.allOff]
+  | _ => []
+
+/-- `sis N lin circ K D prior ratio u_0…u_{D-1} w_0…w_{N-1} x_0…x_{N-1} (cmd freeze valid l_0…l_{N-1})×K`
+    The harness' prediction is `DrawParticles` over a state model that adds 1 to every state entry;
+    a particle is represented by the first entry of its state column.  One output block per step:
+    `S cor.n cor.lin cor.circ |cor.parts| |cor.logw| pred.n pred.lin pred.circ |pred.parts| trig
+       neff(hex) parents… weights(hex)… states(hex)…` -/
+def sis : R String := do
+  let n ← nat; let lin ← nat; let circ ← nat; let k ← nat
+  let d ← nat
+  let prior ← bool
+  let ratio ← flt
+  let us ← listOf d flt
+  let w0 ← listOf n flt
+  let x0 ← listOf n flt
+  let evs ← listOf k (do
+    let c ← nat
+    let fr ← bool
+    let va ← bool
+    let l ← listOf n flt
+    pure ({ cmds := cmdOf c, freezeOk := fr, likValid := va, lik := l,
+            predict := fun prev pred => { pred with parts := prev.parts.map (fun x => x + 1.0), logw := prev.logw } }
+          : SisEvent Float Float))
+  done
+  let cfg : SisCfg Float := { N := n, tiny := Float.ofBits 0x0010000000000000 }
+  let init : PSet Float Float → PSet Float Float := fun s => { s with parts := x0, logw := w0 }
+  let s0 := sisInit cfg lin circ init us
+  -- the resampling object: `Resampling`, or `ResamplingWithPrior` whose initialiser writes 5e6 + j
+  let pinit : PSet Float Float → PSet Float Float := fun s =>
+    { s with parts := (List.range s.parts.length).map (fun j => 5.0e6 + Float.ofNat j) }
+  let rsmp : PSet Float Float → PSet Float Float → Float → PSet Float Float × List Int :=
+    if prior then (fun cor _ u => resampleWithPrior floorNat sortIdxFloat pinit ratio cor u) else resample
+  let (_, outs) := evs.foldl (fun (acc : SisState Float Float × Array String) ev =>
+      let nf := neffLog (sisCorrect cfg acc.1 ev).logw
+      let s := sisStepWith rsmp cfg acc.1 ev
+      let blk := ["S", toString s.cor.n, toString s.cor.lin, toString s.cor.circ,
+                  toString s.cor.parts.length, toString s.cor.logw.length,
+                  toString s.pred.n, toString s.pred.lin, toString s.pred.circ, toString s.pred.parts.length,
+                  (if s.resampled then "1" else "0"), floatStr nf, toString s.parents.length]
+                 ++ intsStr s.parents ++ s.cor.logw.map floatStr ++ s.cor.parts.map floatStr
+      (s, acc.2.push (join blk))) (s0, #[])
+  pure (join ("ok" :: outs.toList))
+
+/-- `glik scale ok1 ok2 ok3 ok4 N d_1…d_N` (`d_i` = Gaussian density of innovation `i`) -> valid |l| l… -/
+def glik : R String := do
+  let scale ← flt
+  let o1 ← bool; let o2 ← bool; let o3 ← bool; let o4 ← bool
+  let n ← nat
+  let ds ← listOf n flt
+  done
+  let (v, l) := gaussianLikelihood scale o1 o2 o3 o4 (fun d : Float => d) ds
+  pure (join (["ok", (if v then "1" else "0"), toString l.length] ++ l.map floatStr))
 
 def handle (op : String) (args : List String) : Option String :=
   match op with
+  | "rs" => some ((run rs args).getD "bad-args")
+  | "rsf" => some ((run rsf args).getD "bad-args")
+  | "rsw" => some ((run rsw args).getD "bad-args")
+  | "rwp" => some ((run rwp args).getD "bad-args")
+  | "sis" => some ((run sis args).getD "bad-args")
+  | "glik" => some ((run glik args).getD "bad-args")
   | _ => none
 
 end BFL.DriverPF
